@@ -209,11 +209,15 @@ impl Bitstr {
 
     pub fn to_int(&self, order: Byteorder) -> i128 {
         let val = self.to_uint(order);
+        if self.len() == 0 {
+            return 0;
+        }
+        if self.len() >= i128::BITS as usize {
+            return i128::from_le_bytes(val.to_le_bytes());
+        }
         let len = self.len() as u32;
         let sign_bit = 1 << (len - 1);
-        if len == i128::BITS {
-            i128::from_le_bytes(val.to_ne_bytes())
-        } else if (val & sign_bit) > 0 {
+        if (val & sign_bit) > 0 {
             let mask = !u128::MAX.overflowing_shl(len as u32).0;
             -(((!val & mask) + 1) as i128)
         } else {
